@@ -856,6 +856,9 @@ bool FSolver::LoadMeshElementsFromSolution(FILE* fp)
     for(int i=0; i<NumEls; i++)
     {
         CMElement elm;
+        // a file that does not list the edge markers leaves the edges without boundary condition
+        // (CMElement's constructor says property 0)
+        elm.e[0]=elm.e[1]=elm.e[2]=-1;
 
         fgets(s,1024,fp);
 
